@@ -61,7 +61,7 @@ pub fn fail(sink: &mut Sink, pid: &str, signature: &str, what: &str, c: &Case, p
     );
 }
 
-fn short(s: &str) -> String {
+pub(crate) fn short(s: &str) -> String {
     let v: String = s.chars().take(160).collect();
     if v.len() < s.len() { format!("{}…", v) } else { v }
 }
@@ -101,7 +101,7 @@ pub fn canon(xot: &Xot, node: Node) -> CNode {
 
 /// Reparse serialised text the way the start node calls for; the result is compared with
 /// `canon(start)`.  `None`: the node kind has no reparse oracle.
-fn reparse(xot: &mut Xot, original: &CNode, text: &str) -> Option<Result<CNode, String>> {
+pub(crate) fn reparse(xot: &mut Xot, original: &CNode, text: &str) -> Option<Result<CNode, String>> {
     match original {
         CNode::Doc(kids) => {
             let elements = kids.iter().filter(|k| matches!(k, CNode::Elem { .. })).count();
@@ -577,12 +577,6 @@ pub fn check(c: &mut Case, p: &Params, obs: &Observed, sink: &mut Sink) {
                 base_reparse = reparse(c.xot, &original, &text);
                 match &base_reparse {
                     Some(Ok(back)) if *back == original => sink.stat("oracle.C10.reparse-equal"),
-                    Some(_) if names_ok && text.contains("xmlns") && text.contains("urn:q&quot;&lt;&amp;") => {
-                        // the serialiser escaped the URI; the crate's parser keeps the references
-                        // in namespace URIs undecoded (a parser matter: C02), so no round trip here
-                        sink.stat("oracle.C10.reparse-skipped-parser-keeps-references-in-namespace-uri");
-                        fail(sink, "C02", "C02:references-in-namespace-uri-not-decoded", &format!("{:?}: the parser interns the raw attribute text of xmlns declarations", short(&text)), c, p);
-                    }
                     Some(r) if names_ok => {
                         let uses_weird = text.contains(WEIRD_URI);
                         let sig = if uses_weird { "C10:namespace-uri-written-unescaped" } else { "C10:reparse-differs" };
@@ -599,6 +593,9 @@ pub fn check(c: &mut Case, p: &Params, obs: &Observed, sink: &mut Sink) {
                 }
             }
         }
+    }
+    if c.domain == crate::suite_ser::Domain::OutsideCrOrRejectedDeclaration {
+        crate::ser_outside::check_outside(c, p, obs, &original, names_ok, sink);
     }
     // C14
     if c.representable && p.prolog_safe() {
